@@ -1,13 +1,16 @@
 """Regenerate every lean/SaVerif/Gen/*.lean from /repo's current tree (runs each
-property module's gen(ctx) only)."""
-import importlib, os, sys
-sys.path.insert(0, os.path.dirname(os.path.dirname(os.path.abspath(__file__))))
-from harness import vlib
-vlib.source_mode()
-for fn in sorted(os.listdir(os.path.join(vlib.VERIF, "harness", "props"))):
-    if not fn.startswith("c") or not fn.endswith(".py"): continue
-    pid = fn[:-3].upper()
-    mod = importlib.import_module("harness.props." + fn[:-3])
+property module's gen(ctx) only).  One subprocess per property, so that the set of
+imported sqlalchemy modules (which some tables enumerate) is the same as when the
+property's own check runs its translator."""
+import importlib, os, subprocess, sys
+ROOT = os.path.dirname(os.path.dirname(os.path.abspath(__file__)))
+sys.path.insert(0, ROOT)
+
+
+def one(pid):
+    from harness import vlib
+    vlib.source_mode()
+    mod = importlib.import_module("harness.props." + pid.lower())
     if hasattr(mod, "gen"):
         ctx = vlib.Ctx(pid, "quick", 0)
         try:
@@ -15,3 +18,23 @@ for fn in sorted(os.listdir(os.path.join(vlib.VERIF, "harness", "props"))):
             print(pid, "regenerated" if ctx.gen_changed else "unchanged", ctx.gen_changed)
         except Exception as e:
             print(pid, "GEN FAILED", repr(e)[:200])
+
+
+if __name__ == "__main__":
+    if len(sys.argv) > 1:
+        one(sys.argv[1])
+    else:
+        from concurrent.futures import ThreadPoolExecutor
+        pids = []
+        for fn in sorted(os.listdir(os.path.join(ROOT, "harness", "props"))):
+            if fn.startswith("c") and fn.endswith(".py"):
+                src = open(os.path.join(ROOT, "harness", "props", fn)).read()
+                if "\ndef gen(" in src:
+                    pids.append(fn[:-3].upper())
+        def run(p):
+            r = subprocess.run([sys.executable, "-B", os.path.abspath(__file__), p],
+                               capture_output=True, text=True, cwd=ROOT)
+            return (r.stdout + r.stderr[-300:]).strip()
+        with ThreadPoolExecutor(8) as ex:
+            for out in ex.map(run, pids):
+                print(out)
